@@ -78,9 +78,9 @@ Proof. vm_compute. reflexivity. Qed.
 Example ex_clean : clean ex_prog = true.
 Proof. vm_compute. reflexivity. Qed.
 (* what the real interpreter prints for it (observed), is what both interpreters compute *)
-Example ex_impl : run_impl 200 ex_prog = ("f=120 c=12,17k0 s=1 zero0 one9 other8 e0 e1 e2 i=100 d=2", EndOk).
+Example ex_impl : run_impl no_catch 200 ex_prog = ("f=120 c=12,17k0 s=1 zero0 one9 other8 e0 e1 e2 i=100 d=2", EndOk).
 Proof. vm_compute. reflexivity. Qed.
-Example ex_ref : run_ref 200 ex_prog = ("f=120 c=12,17k0 s=1 zero0 one9 other8 e0 e1 e2 i=100 d=2", EndOk).
+Example ex_ref : run_ref no_catch 200 ex_prog = ("f=120 c=12,17k0 s=1 zero0 one9 other8 e0 e1 e2 i=100 d=2", EndOk).
 Proof. vm_compute. reflexivity. Qed.
 
 (* the statement-level theorem's hypotheses are satisfiable inside loops: `break 2` under two
